@@ -190,8 +190,8 @@ func ruleR14_2(p *Program, r *Report) {
 				}
 				if guarded {
 					r.OK("R14.2", key, p.InstrPos(c), desc)
-				} else if why, ok := r14_2Exceptions[key]; ok && guardedByFalseField(c, recv, "wroteHeader") {
-					r.OK("R14.2", key, p.InstrPos(c), desc+" [exception: under !wroteHeader - "+why+"]")
+				} else if why, ok := r14_2Exceptions[key]; ok && guardedByFalseField(c, recv, "wroteHeader") && setsFlagBeforeDst(p, c.Common().StaticCallee(), "wroteHeader") {
+					r.OK("R14.2", key, p.InstrPos(c), desc+" [exception: under !wroteHeader - "+why+"; the callee sets the flag before its first destination call]")
 				} else {
 					r.Fail("R14.2", key, p.InstrPos(c), desc, "no dominating test of the sticky error: the destination can be touched again after a failure")
 				}
@@ -406,4 +406,33 @@ func ruleR14_5(p *Program, r *Report) {
 			}
 		}
 	}
+}
+
+// setsFlagBeforeDst: in fn (a method), the store recv.<flag> = true dominates every destination call.
+func setsFlagBeforeDst(p *Program, fn *ssa.Function, flag string) bool {
+	if fn == nil || fn.Blocks == nil {
+		return false
+	}
+	recv := fn.Params[0]
+	var set ssa.Instruction
+	for _, b := range fn.Blocks {
+		for _, in := range b.Instrs {
+			if st, ok := in.(*ssa.Store); ok {
+				if root, sel := accessPath(st.Addr); root == recv && sel == "."+flag {
+					if v, isB := constBool(st.Val); isB && v {
+						set = in
+					}
+				}
+			}
+		}
+	}
+	if set == nil {
+		return false
+	}
+	for _, c := range allCalls(fn) {
+		if d, _ := p.isDstCall(c); d && !dominatesInstr(set, c) {
+			return false
+		}
+	}
+	return true
 }
